@@ -91,7 +91,7 @@ let () =
       let line = input_line stdin in
       if String.length line > 0 then begin
         let b = Buffer.create 4096 in
-        (try print b (Model.dispatch (parse line))
+        (try print b (Model.dispatch_all (parse line))
          with Failure m -> (Buffer.clear b; Buffer.add_string b ("!error " ^ m))
             | Stack_overflow -> (Buffer.clear b; Buffer.add_string b "!error stack-overflow"));
         print_string (Buffer.contents b); print_newline ()
